@@ -21,7 +21,7 @@ CONSTANTS Period,      \* housekeeping period              1000
           Batch,       \* largest batch                      32
           RejoinMs,    \* reconnect bound after a repair  30000
           MaxL,
-          Check        \* which properties' clauses are asserted: a subset of {"C01", "C06", "C08", "C09", "C14"}
+          Check        \* which properties' clauses are asserted: a subset of {"C01", "C06", "C07", "C08", "C09", "C14"}
                        \* (the observer's own state always advances; each check names its property)
 
 Rec == ndJsonDeserialize(IOEnv.TRACE)
@@ -43,15 +43,28 @@ VARIABLES i,
           repaired,  \* repaired[l]: time its path was repaired while it was not connected (-1: nothing pending)
           mode, modeT,  \* the configured scheduling mode and when it was last (re)set
           ackT,      \* last time an ACK-class datagram (SRTLA ACK, SRT ACK) or a REG3 reached the sender
-          kw, kwT    \* kw[l]: window reported by the link's last keepalive (-1: none on this socket), and when
+          kw, kwT,   \* kw[l]: window reported by the link's last keepalive (-1: none on this socket), and when
+          reg1L, reg1T,  \* the link / time of the last REG1 seen on the wire (0 / -1: none)
+          ansT,      \* when the receiver's REG2 answer to that REG1 reached the sender (-1: not yet)
+          seen2,     \* links that have sent a REG2 carrying the receiver's group id since that answer
+          amn        \* amn[l]: time of a receiver restart after which link l has not been re-registered (-1: none)
 
 vars == <<i, n, timeout, profile, est, known, outst, hi, recent, routed, dups, port, conn, heard, kaT, downLo,
-          everUp, repaired, mode, modeT, ackT, kw, kwT>>
+          everUp, repaired, mode, modeT, ackT, kw, kwT, reg1L, reg1T, ansT, seen2, amn>>
 
 Links == 1..MaxL
 Handshake == {"reg1", "reg2", "reg3", "reg_err", "reg_ngp"}
 Internal  == Handshake \cup {"srtla_ack", "ka"}
 SenderOwn == {"ka", "reg1", "reg2"}          \* frames the sender originates itself
+
+(* per-link views of one step; a frame from a source port other than the link's current one means its socket
+   was re-created (torn down and re-registered) *)
+FramesOf(r, l) == SelectSeq(r.wire, LAMBDA f : f.l = l)
+RxOf(r, l)     == SelectSeq(r.rx, LAMBDA x : x.l = l)
+
+Fs(r, l)     == FramesOf(r, l)
+NewP(r, l)   == IF Fs(r, l) = <<>> THEN port[l] ELSE Fs(r, l)[Len(Fs(r, l))].port
+Torn(r, l)   == port[l] # 0 /\ \E j \in 1..Len(Fs(r, l)) : Fs(r, l)[j].port # port[l]
 
 Fresh(r) ==
     /\ n' = r.n /\ timeout' = r.timeout /\ profile' = r.profile
@@ -60,6 +73,7 @@ Fresh(r) ==
     /\ conn' = [l \in Links |-> -1] /\ heard' = [l \in Links |-> -1] /\ kaT' = [l \in Links |-> -1]
     /\ downLo' = [l \in Links |-> -1] /\ everUp' = [l \in Links |-> FALSE] /\ repaired' = [l \in Links |-> -1]
     /\ mode' = r.mode /\ modeT' = 0 /\ ackT' = -1 /\ kw' = [l \in Links |-> -1] /\ kwT' = [l \in Links |-> -1]
+    /\ reg1L' = 0 /\ reg1T' = -1 /\ ansT' = -1 /\ seen2' = {} /\ amn' = [l \in Links |-> -1]
 
 (* ---------------- the uplink direction (C01) ---------------- *)
 (* fold over the frames of one step, in the order the receiver socket delivered them *)
@@ -81,8 +95,10 @@ WireStep(r, acc, f) ==
                           !.ok = @ /\ \E s \in acc.sent : s.dig = f.dig /\ s.l # f.l]
 
 (* the datagram the client sends in this step is accepted before anything the step puts on the wire *)
+(* the premise of C01: some uplink is connected and has been heard from within the configured timeout *)
+Usable(t) == \E l \in 1..n : conn[l] # -1 /\ heard[l] # -1 /\ t - heard[l] < timeout
 Outst0(r) == IF r.ev = "Client" /\ r.sent
-             THEN outst \cup {[k |-> r.k, dig |-> r.dig, t |-> r.t, len |-> r.plen, must |-> est]}
+             THEN outst \cup {[k |-> r.k, dig |-> r.dig, t |-> r.t, len |-> r.plen, must |-> est /\ Usable(r.t)]}
              ELSE outst
 Wire(r) == FoldLeft(LAMBDA acc, f : WireStep(r, acc, f),
                     [o |-> Outst0(r), h |-> hi, sent |-> recent, routed |-> routed, dups |-> dups, ok |-> TRUE],
@@ -90,7 +106,8 @@ Wire(r) == FoldLeft(LAMBDA acc, f : WireStep(r, acc, f),
 
 Uplink(r) ==
     LET w == Wire(r)
-        o1 == w.o
+        \* a datagram still queued on an uplink that is torn down in this step may be lost with it
+        o1 == IF \E l \in 1..n : Torn(r, l) THEN {[x EXCEPT !.must = FALSE] : x \in w.o} ELSE w.o
     IN /\ outst' = o1 /\ hi' = w.h /\ routed' = w.routed /\ dups' = w.dups
        /\ recent' = {s \in w.sent : r.t - s.t <= 100}
        /\ "C01" \in Check =>
@@ -114,12 +131,6 @@ Return(r) ==
          /\ ~known => r.client = <<>>
 
 (* ---------------- sockets, liveness, keepalives (C08 / C14) ---------------- *)
-FramesOf(r, l) == SelectSeq(r.wire, LAMBDA f : f.l = l)
-RxOf(r, l)     == SelectSeq(r.rx, LAMBDA x : x.l = l)
-
-Fs(r, l)     == FramesOf(r, l)
-NewP(r, l)   == IF Fs(r, l) = <<>> THEN port[l] ELSE Fs(r, l)[Len(Fs(r, l))].port
-Torn(r, l)   == port[l] # 0 /\ \E j \in 1..Len(Fs(r, l)) : Fs(r, l)[j].port # port[l]
 Got3(r, l)   == \E j \in 1..Len(RxOf(r, l)) : RxOf(r, l)[j].cls = "reg3" /\ RxOf(r, l)[j].port = NewP(r, l)
 Hears(r, l)  == \E j \in 1..Len(RxOf(r, l)) :
                    RxOf(r, l)[j].cls \notin {"reg2", "reg_err", "reg_ngp"} /\ RxOf(r, l)[j].port = NewP(r, l)
@@ -165,10 +176,41 @@ WindowChecks(r, l) ==
 Kw1(r, l)  == IF Kas(r, l) # <<>> THEN Kas(r, l)[Len(Kas(r, l))].kw ELSE IF Torn(r, l) THEN -1 ELSE kw[l]
 KwT1(r, l) == IF Kas(r, l) # <<>> THEN r.t ELSE IF Torn(r, l) THEN -1 ELSE kwT[l]
 
+(* ---- C07 on the wire ---- *)
+Reg1s(r)   == SelectSeq(r.wire, LAMBDA f : f.cls = "reg1")
+Reg2Ans(r) == \E j \in 1..Len(r.rx) : r.rx[j].cls = "reg2" /\ r.rx[j].l = reg1L
+GrpReg2(r) == {r.wire[j].l : j \in {q \in 1..Len(r.wire) : r.wire[q].cls = "reg2" /\ r.wire[q].grp}}
+HandshakeChecks(r) ==
+    "C07" \in Check =>
+        \* a group-creating REG1 leaves only while no uplink is registered ...
+        /\ Reg1s(r) # <<>> => \A l \in 1..n : conn[l] = -1 \/ Torn(r, l)
+        \* ... carries a full-length id, and never while another uplink's REG1 is still outstanding (unanswered,
+        \* less than the 4 s wait old, its socket still in place)
+        /\ \A j \in 1..Len(Reg1s(r)) : LET f == Reg1s(r)[j] IN
+               /\ f.idlen = 256
+               /\ (reg1L # 0 /\ f.l # reg1L /\ ansT = -1 /\ ~Torn(r, reg1L)) => r.t - reg1T >= 4000
+        \* the id the receiver answered with is adopted and broadcast on every uplink by the next housekeeping pass
+        /\ (ansT # -1 /\ r.t - r.d >= ansT + Period) => (1..n) \subseteq (seen2 \cup GrpReg2(r))
+HandshakeNext(r) ==
+    LET f1 == Reg1s(r) IN
+    /\ reg1L' = IF f1 # <<>> THEN f1[Len(f1)].l ELSE reg1L
+    /\ reg1T' = IF f1 # <<>> THEN r.t ELSE reg1T
+    /\ ansT'  = IF f1 # <<>> THEN -1
+                ELSE IF ansT = -1 /\ reg1L # 0 /\ Reg2Ans(r) THEN r.t
+                ELSE IF ansT # -1 /\ r.t - r.d >= ansT + Period THEN -1      \* the round is over
+                ELSE ansT
+    /\ seen2' = IF f1 # <<>> \/ ansT = -1 THEN {} ELSE seen2 \cup GrpReg2(r)
+
+(* ---- C08: after a receiver restart every uplink is registered again in time ---- *)
+Amn1(r, l) == IF Got3(r, l) THEN -1 ELSE IF r.ev = "Amnesia" THEN r.t ELSE amn[l]
+
 Upd(f(_, _), old, r) == [l \in Links |-> IF l <= n THEN f(r, l) ELSE old[l]]
 
 LinksOK(r) ==
     /\ \A l \in 1..n : LinkChecks(r, l) /\ WindowChecks(r, l)
+    /\ HandshakeChecks(r) /\ HandshakeNext(r)
+    /\ amn' = Upd(Amn1, amn, r)
+    /\ "C08" \in Check => \A l \in 1..n : Amn1(r, l) # -1 => r.t - Amn1(r, l) <= RejoinMs + timeout + Period + r.d
     /\ kw' = Upd(Kw1, kw, r) /\ kwT' = Upd(KwT1, kwT, r)
     /\ ackT' = IF AckNow(r) THEN r.t ELSE ackT
     /\ mode' = IF r.ev = "SetCfg" /\ "classic" \in DOMAIN r THEN (IF r.classic THEN "classic" ELSE "enhanced") ELSE mode
@@ -186,6 +228,7 @@ TraceInit ==
     /\ conn = [l \in Links |-> -1] /\ heard = [l \in Links |-> -1] /\ kaT = [l \in Links |-> -1]
     /\ downLo = [l \in Links |-> -1] /\ everUp = [l \in Links |-> FALSE] /\ repaired = [l \in Links |-> -1]
     /\ mode = "enhanced" /\ modeT = 0 /\ ackT = -1 /\ kw = [l \in Links |-> -1] /\ kwT = [l \in Links |-> -1]
+    /\ reg1L = 0 /\ reg1T = -1 /\ ansT = -1 /\ seen2 = {} /\ amn = [l \in Links |-> -1]
 
 TraceNext ==
     /\ i <= Len(Rec)
